@@ -2,6 +2,7 @@
 //!
 //! * re-exports of crate-private modules for in-process enumeration harnesses,
 //! * `pinned_disk_kind`: lets a harness pin the detected disk kind (`FCLONES_VERIF_DISK_KIND`),
+//!   `pinned_disk_kind_at`: per mount point (`FCLONES_VERIF_DISK_KIND_AT`),
 //! * `reorder` / `reorder_vec`: schedule seams. They first gather everything a collector would
 //!   receive, put it in a canonical order, and then apply the permutation selected by
 //!   `FCLONES_VERIF_PERM=<site>:<lehmer index>[,<site>:<index>...]` (identity when unset).
@@ -36,6 +37,28 @@ pub fn pinned_disk_kind() -> Option<sysinfo::DiskKind> {
         "unknown" => Some(sysinfo::DiskKind::Unknown(-1)),
         other => panic!("FCLONES_VERIF_DISK_KIND: bad value {other}"),
     }
+}
+
+/// Disk kind requested for the device mounted at `mount_point`, if any
+/// (`FCLONES_VERIF_DISK_KIND_AT=<kind>=<mount point>[;<kind>=<mount point>...]`); overrides
+/// `FCLONES_VERIF_DISK_KIND` for that device, so that a harness can mix device kinds.
+pub fn pinned_disk_kind_at(mount_point: &crate::path::Path) -> Option<sysinfo::DiskKind> {
+    let spec = std::env::var("FCLONES_VERIF_DISK_KIND_AT").ok()?;
+    let mp = mount_point.to_string_lossy();
+    for part in spec.split(';') {
+        let (kind, at) = part
+            .split_once('=')
+            .unwrap_or_else(|| panic!("FCLONES_VERIF_DISK_KIND_AT: bad entry {part}"));
+        if at == mp {
+            return Some(match kind {
+                "ssd" => sysinfo::DiskKind::SSD,
+                "hdd" => sysinfo::DiskKind::HDD,
+                "unknown" => sysinfo::DiskKind::Unknown(-1),
+                other => panic!("FCLONES_VERIF_DISK_KIND_AT: bad kind {other}"),
+            });
+        }
+    }
+    None
 }
 
 static SITE_CALLS: AtomicUsize = AtomicUsize::new(0);
